@@ -1,5 +1,78 @@
 package main
 
+import (
+	"bytes"
+
+	"github.com/tobgu/qframe"
+	"github.com/tobgu/qframe/config/csv"
+)
+
+func bytesBS(b []byte) BS {
+	r := make(BS, len(b))
+	for i, c := range b {
+		r[i] = int(c)
+	}
+	return r
+}
+
+// txtCells: the reference text of every cell of a frame, read through the views and rendered with
+// strconv as the properties prescribe (C09/C13: ints, bools and floats as strconv formats them).
 func (x *Exec) dispatchIO(st *Step, ev Ev) {
-	panic("io op not implemented: " + st.Op)
+	switch st.Op {
+	case "ToCSV":
+		qf := x.frame(st.Recv)
+		var buf bytes.Buffer
+		var opts []csv.ToConfigFunc
+		hdr := 1
+		wcols := []BS{}
+		if st.Csv != nil {
+			if st.Csv.NoHeaderWrite {
+				opts = append(opts, csv.Header(false))
+				hdr = 0
+			}
+			if st.Csv.WriteCols != nil {
+				opts = append(opts, csv.Columns(strList(st.Csv.WriteCols)))
+				wcols = st.Csv.WriteCols
+			}
+		}
+		err := qf.ToCSV(&buf, opts...)
+		ev["a"] = Ev{"header": hdr, "hascols": b2i(st.Csv != nil && st.Csv.WriteCols != nil), "cols": wcols}
+		ev["err"] = b2i(err != nil)
+		ev["bytes"] = bytesBS(buf.Bytes())
+		ev["txt"] = txtOf(qf)
+	case "ToJSON":
+		qf := x.frame(st.Recv)
+		var buf bytes.Buffer
+		err := qf.ToJSON(&buf)
+		ev["a"] = Ev{"_": 0}
+		ev["err"] = b2i(err != nil)
+		ev["bytes"] = bytesBS(buf.Bytes())
+		ev["txt"] = txtOf(qf)
+	case "String":
+		qf := x.frame(st.Recv)
+		s := qf.String()
+		ev["a"] = Ev{"_": 0}
+		ev["err"] = 0
+		ev["bytes"] = toBS(s)
+		ev["txt"] = txtOf(qf)
+	default:
+		x.dispatchIO2(st, ev)
+	}
+}
+
+// txtOf logs, per column, the reference rendering of each cell (strconv / the string itself);
+// null cells render as the empty sequence with flag 1. Shape: [[ [null, bytes...] ... ] ... ]
+func txtOf(qf qframe.QFrame) [][]BS {
+	if qf.Err != nil {
+		return [][]BS{}
+	}
+	r := [][]BS{}
+	for _, n := range qf.ColumnNames() {
+		col := []BS{}
+		for _, v := range colVals(qf, n) {
+			col = append(col, refText(v))
+		}
+		r = append(r, col)
+	}
+	return r
 }
